@@ -193,13 +193,14 @@ def readField (b : Blk) (sid k : Nat) : Option (Nat × Nat) :=
 def written (b : Blk) (sid k : Nat) : Option (Nat × Nat) := b.w.truth sid k
 
 /-- every field block of every series is read back where it was written (executable check used by
-the driver and the witnesses; a series whose field data are ALL empty is skipped by `readSeriesData`
-— `fieldOffsetsAt <= 0` — which loses nothing). -/
+the driver and the witnesses; a series whose field data are ALL empty may be skipped — by
+`readSeriesData` (`fieldOffsetsAt <= 0`) or, when its bucket holds nothing else, by `Load`
+(`flushLevel2SeriesBucket` writes no footer for an empty bucket) — which loses nothing). -/
 def seriesOK (b : Blk) (s : Nat × List Nat) : Bool :=
   (List.range s.2.length).all (fun k =>
     match readField b s.1 k, written b s.1 k with
     | some r, some t => r == t
-    | none, some t => t.2 == 0 ∧ b.nf ≠ 1 ∧ s.2.all (· == 0)
+    | none, some t => t.2 == 0 ∧ s.2.all (· == 0)
     | _, none => false)
 
 def lostSeries (c : Cfg) (e : Enc) (nf : Nat) (series : List (Nat × List Nat)) : List Nat :=
